@@ -101,7 +101,7 @@ pub open spec fn committed_single(o: World, n: World, op: OpG) -> bool {
 //@contract
     requires old(w).txs.len() > 0 ==> last(*old(w)).finished,
     ensures r is Ok ==> committed_single(*old(w), *final(w), OpG::FetchUpdate) // [C07:helper-is-one-committed-transaction]
-            && res_id(r->Ok_0) == last(*final(w)).result, // [C07:helper-returns-the-result-of-the-attempt-that-committed]
+            && res_id(r->Ok_0) == last(*final(w)).result, // [C07:helper-returns-the-result-of-the-attempt-that-committed] [C08:helper-returns-the-result-of-the-attempt-that-committed]
 //@loop 0
             invariant
                 w.txs.len() >= old(w).txs.len(), w.txs.len() > 0 ==> last(*w).finished,
@@ -111,7 +111,7 @@ pub open spec fn committed_single(o: World, n: World, op: OpG) -> bool {
 //@contract
     requires old(w).txs.len() > 0 ==> last(*old(w)).finished,
     ensures r is Ok ==> committed_single(*old(w), *final(w), OpG::UpdateFetch) // [C07:helper-is-one-committed-transaction]
-            && res_id(r->Ok_0) == last(*final(w)).result, // [C07:helper-returns-the-result-of-the-attempt-that-committed]
+            && res_id(r->Ok_0) == last(*final(w)).result, // [C07:helper-returns-the-result-of-the-attempt-that-committed] [C08:helper-returns-the-result-of-the-attempt-that-committed]
 //@loop 0
             invariant
                 w.txs.len() >= old(w).txs.len(), w.txs.len() > 0 ==> last(*w).finished,
